@@ -26,6 +26,15 @@ def scenarios(rng, tier):
     s.frame(0, discover(M, gen=1))
     for i in range(N): s.frame(0, probe(mac(1000 + i), own, mac(1000 + i) if i % 3 else mac(500000 + i), own, train=i % 2 == 0))
     s.frame(0, query(M, own, seq=2)); s.frame(0, reset(M))
+    # rounds of (3 frames' worth of distinct probes, one Query): the backlog grows by two frames' worth per round until the cap holds it
+    for mtu in ((576,) if tier == 'quick' else (576, 1500)):
+        per = (mtu - 34) // 20
+        s.start('floodr_%d' % mtu); s.lines.append('cfg 0 mtu=%d' % mtu); s.frame(0, discover(M, gen=1))
+        rounds = ((cap or 1024) + 6 * per) // (2 * per) + 3; x = 0
+        for r_ in range(rounds):
+            for i in range(3 * per): s.frame(0, probe(mac(5000 + x), own, mac(5000 + x), own)); x += 1
+            s.frame(0, query(M, own, seq=1 + r_))
+        s.frame(0, reset(M))
     for j in range(2 if tier == 'quick' else 6):
         s.start('floodq_%d' % j); s.lines.append('cfg 0 mtu=%d' % rng.choice([576, 1500]))
         s.frame(0, discover(M, gen=1))
